@@ -1,7 +1,7 @@
 """C09 -- editTimestamps / appendTier / appendTextgrid move every entry by exactly the stated amount."""
 import itertools
 import sys
-from .. import core, gen, tierops, obshist
+from .. import core, gen, tierops, tgops, obshist
 
 ID = "C09"
 MODULE = "Check.C09Check"
@@ -118,10 +118,25 @@ def run(case):
     raise ValueError(op)
 
 
+def _ctg_out(r):
+    if "ok" in r:
+        v = r["ok"]
+        return "(Ok %s)" % tgops.ctg({"tiers": v["tiers"], "min": v["min"], "max": v["max"]})
+    return "(Err %s)" % r["err"]
+
+
 def emit(case, r):
     op = case["op"]
     if op in ("tgedit", "tgappend"):
-        return None
+        # the whole textgrid that came back against the textgrid-level model, on exact grids
+        if case["scale"][0] != "dyadic" or ("ok" not in r and "err" not in r):
+            return None
+        a = case["args"]
+        A = tgops.ctg({"tiers": case["A"], "min": 0, "max": 30})
+        if op == "tgedit":
+            return "TgEditC %s %s %s %s" % (A, core.cz(a["o"]), tierops.REP[a["mode"]], _ctg_out(r))
+        B = tgops.ctg({"tiers": case["B"], "min": 0, "max": 30})
+        return "TgAppendC %s %s %s %s" % (A, B, core.cbool(a["only"]), _ctg_out(r))
     t, a = case["tier"], case["args"]
     I = t["kind"] == "I"
     ct, cr = (core.citier, core.citier) if I else (core.cptier, core.cptier)
